@@ -26,9 +26,12 @@ def base_water():
     ops = []
     for i in range(5):
         ops.append({"op": "junction", "id": "j%d" % i, "pn_bar": 5.0, "tfluid_k": 330.0, "height_m": 2.0 * i})
+    ops.append({"op": "junction", "id": "j5", "pn_bar": 5.0, "tfluid_k": 330.0, "height_m": 4.0})
     ops += [
         {"op": "ext_grid", "id": "eg0", "junction": "j0", "p_bar": 5.0, "t_k": 360.0},
         {"op": "pipe", "id": "pA", "from": "j0", "to": "j1", "length_km": 0.3, "d_mm": 60.0, "u": 12.0, "sections": 1},
+        # stagnant dead end with many sections (friction factor 64/Re of a pipe without flow is ~1e9 per section)
+        {"op": "pipe", "id": "pS", "from": "j2", "to": "j5", "length_km": 0.2, "d_mm": 50.0, "u": 12.0, "sections": 6},
         {"op": "pipe", "id": "pB", "from": "j1", "to": "j2", "length_km": 0.4, "d_mm": 50.0, "u": 12.0, "sections": 4},
         {"op": "pipe", "id": "pC", "from": "j1", "to": "j3", "length_km": 0.2, "d_mm": 40.0, "u": 12.0, "sections": 2,
          "in_service": False},
@@ -39,6 +42,7 @@ def base_water():
         {"op": "valve", "id": "vD", "et": "pi", "from": "j4", "pipe": "pE"},     # relabelling covers every permutation
         {"op": "valve", "id": "vB", "from": "j1", "to": "j4", "d_mm": 30.0, "zeta": 5.0},
         {"op": "sink", "id": "s2", "junction": "j2", "mdot": 0.25},
+        {"op": "sink", "id": "s5", "junction": "j5", "mdot": 1e-12},   # keeps the dead end at a non-zero, laminar trickle
         {"op": "sink", "id": "s3", "junction": "j3", "mdot": 0.15},
         {"op": "sink", "id": "s4", "junction": "j4", "mdot": 0.2},
         {"op": "sink", "id": "s2b", "junction": "j2", "mdot": 0.1, "scaling": 0.5},
